@@ -1,13 +1,19 @@
 /-
   C16 (generated-fact part): the size guards of `Put` run before any lock or I/O.
-  The codec theorems of C16 are in Props/C08.lean.
+  The codec theorems of C16 are in Props/C08.lean; what the two guards COMPUTE is proved in
+  Props/G01Lim.lean on their translation (`G01_keyTooLargeGuard`, `G01_valueTooLargeGuard`).
 -/
 import Pogreb.Generated.Flow
 namespace Pogreb
 
+/-- The statements of `DB.Put` in front of its first lock, by kind (regenerated from the source):
+everything up to and including the two size guards is a guard or a pure definition - nothing that
+could touch the database runs before an over-long key or value is refused - and the key is judged
+first (the error for a pair that is too long in both is `errKeyTooLarge`). -/
 theorem C16_guards_first :
-    Generated.putPrologue.take 2 =
-      ["if len(key) > MaxKeyLength { return errKeyTooLarge }", "if len(value) > MaxValueLength { return errValueTooLarge }"] := by
-  decide
+    let front := Generated.putPrologueKinds.takeWhile (fun k => k == "define" || k.startsWith "guard:")
+    front.filter (fun k => k.startsWith "guard:") = ["guard:errKeyTooLarge", "guard:errValueTooLarge"] ∧
+    Generated.putPrologueKinds.getLast? = some "lock" := by
+  decide +kernel
 
 end Pogreb
